@@ -41,6 +41,17 @@ class Tup:
         return "(" + ", ".join(map(repr, self.items)) + ")"
 
 
+class SortedTup(Tup):
+    """A list literal after .sort() / sorted(): element k is the k-th smallest of the items."""
+    __slots__ = ()
+
+    def __eq__(self, o):
+        return isinstance(o, SortedTup) and frozenset(self.items) == frozenset(o.items) and len(self.items) == len(o.items)
+
+    def __hash__(self):
+        return hash(("sorted", frozenset(self.items)))
+
+
 class Raise:
     __slots__ = ("exc",)
 
@@ -193,7 +204,8 @@ class Evaluator:
                 env[p] = sym(p)
         ctx = Ctx(f, 0, selfcls or f.cls)
         try:
-            return self.exec_block(f.node.body, [(frozenset(), env, None)], ctx)
+            out = self.exec_block(f.node.body, [(frozenset(), env, None)], ctx)
+            return [(c, e, r if r is not None else NONE) for c, e, r in out]
         finally:
             self.effects_mode = False
 
@@ -287,6 +299,13 @@ class Evaluator:
         if isinstance(st, ast.Expr):
             if isinstance(st.value, ast.Constant):
                 return [(conds, env, None)]
+            # in-place sort of a local list: the list becomes its sorted version
+            if isinstance(st.value, ast.Call) and isinstance(st.value.func, ast.Attribute) and st.value.func.attr == "sort" \
+                    and not st.value.args and not st.value.keywords and isinstance(st.value.func.value, ast.Name) \
+                    and isinstance(env.get(st.value.func.value.id), Tup):
+                e2 = dict(env)
+                e2[st.value.func.value.id] = SortedTup(env[st.value.func.value.id].items)
+                return [(conds, e2, None)]
             # side-effect-free expression statements (calls to require are handled)
             if isinstance(st.value, ast.Call):
                 ec = self._effect_call(st.value, env, ctx)
@@ -399,10 +418,18 @@ class Evaluator:
             return out
         if isinstance(st, ast.Pass):
             return [(conds, env, None)]
+        if isinstance(st, ast.Break) and self.effects_mode:
+            return [(conds, env, Lit("<break>"))]
+        if isinstance(st, ast.Continue) and self.effects_mode:
+            return [(conds, env, Lit("<continue>"))]
         if isinstance(st, ast.For):
             return self.exec_for(st, conds, env, ctx)
         if isinstance(st, (ast.Import, ast.ImportFrom)):
             return [(conds, env, None)]
+        if isinstance(st, ast.FunctionDef):
+            e2 = dict(env)
+            e2[st.name] = FuncRef(FuncInfo(ctx.f.module, None, st), None, None)
+            return [(conds, e2, None)]
         raise Unreadable(f"statement {type(st).__name__} in {ctx.f.qualname}:{st.lineno}")
 
     def _clamp_idiom(self, st: ast.If, env, ctx):
@@ -696,7 +723,13 @@ class Evaluator:
             out = []
             for c1, b in self.ev(node.value, env, ctx):
                 for c2, i in self.ev(node.slice, env, ctx):
-                    if isinstance(b, Tup) and isinstance(i, Rat) and i.is_const():
+                    if isinstance(b, SortedTup) and isinstance(i, Rat) and i.is_const():
+                        k = int(i.const_value())
+                        if k < 0:
+                            k += len(b.items)
+                        out.append((c1 | c2, Rat.atom(("kth", k, frozenset(self.as_num(x, node, ctx) for x in b.items),
+                                                       len(b.items)))))
+                    elif isinstance(b, Tup) and isinstance(i, Rat) and i.is_const():
                         out.append((c1 | c2, b.items[int(i.const_value())]))
                     elif isinstance(i, Rat) and i.is_const() and i.const_value().denominator == 1:
                         out.append((c1 | c2, Rat.atom(("item", as_term(b), int(i.const_value())))))
@@ -1186,6 +1219,8 @@ class Evaluator:
             return [(frozenset(), Rat.atom(("isinstance", as_term(pos[0]), nm)))]
         if short in ("list", "tuple") and len(pos) == 1 and not isinstance(fv, FuncRef):
             return [(frozenset(), pos[0])]
+        if short == "sorted" and len(pos) == 1 and not kw and isinstance(pos[0], Tup) and not isinstance(fv, FuncRef):
+            return [(frozenset(), SortedTup(pos[0].items))]
         if isinstance(fv, FuncRef):
             f = fv.func
             if f.qualname in self.extern:
